@@ -4,9 +4,9 @@
 # against it, and stores patch + demo + meta.json under /verif/seeded/<ID>-<mN>/.
 set -u
 ID="$1"; M="$2"; FEAT="$3"; shift 3
-OUT=/tmp/seedwork/out-$ID/$M
-DEST=/verif/seeded/$ID-$M
-v=$(TC="${TC:-}" /verif/tools/verify_seed.sh "$ID" "$M" $FEAT); vrc=$?
+OUT=/tmp/seedwork/out${R:-}-$ID/$M
+DEST=/verif/seeded/$ID-${R:+r$R}$M
+v=$(R="${R:-}" TC="${TC:-}" /verif/tools/verify_seed.sh "$ID" "$M" $FEAT); vrc=$?
 echo "$v"
 if [ $vrc -ne 0 ]; then echo "NOT KEPT: verification failed"; exit 1; fi
 res=$(/verif/tools/try_seed.sh "$OUT/patch.diff" "$@")
@@ -21,7 +21,7 @@ for line in res.splitlines():
     mm=re.match(r'== (C\d+) rc=(\d+) :: (.*)',line)
     if mm: checks[mm.group(1)]={"exit":int(mm.group(2)),"detected":mm.group(2)=="1","output":mm.group(3)[:300]}
 notes=open(dest+"/notes.md").read() if __import__("os").path.exists(dest+"/notes.md") else ""
-meta={"property":pid,"seed":f"{pid}-{m}","source":"independent sub-agent given only the property text and a scratch worktree",
+meta={"property":pid,"seed":dest.split("/")[-1],"source":"independent sub-agent given only the property text and a scratch worktree",
  "needs_to_manifest":"see notes.md (written by the sub-agent)","verification":v,
  "commands":[f"tools/verify_seed.sh {pid} {m} {feat}".strip(), "tools/try_seed.sh patch.diff "+" ".join(checks.keys())],
  "checks_run":checks,"detected_by":[k for k,c in checks.items() if c["detected"]]}
